@@ -1,6 +1,7 @@
 package main
 
 import (
+	"sort"
 	"context"
 	"errors"
 	"fmt"
@@ -555,6 +556,28 @@ func (r *Rig) Close() {
 	if r.MP != nil {
 		_ = r.MP.VerifClose()
 	}
+}
+
+// OpenDescriptors lists the process's open file descriptors that point below dir (drive file, write-cache files), except the index
+// database (one pooled connection per persister by design).
+func OpenDescriptors(dir string) []string {
+	ents, err := os.ReadDir("/proc/self/fd")
+	if err != nil {
+		return nil
+	}
+	var out []string
+	for _, e := range ents {
+		t, err := os.Readlink("/proc/self/fd/" + e.Name())
+		if err != nil || !strings.HasPrefix(t, dir+"/") {
+			continue
+		}
+		if strings.Contains(t, "index.sqlite") {
+			continue
+		}
+		out = append(out, strings.TrimPrefix(t, dir+"/"))
+	}
+	sort.Strings(out)
+	return out
 }
 
 // LocksHeld reports which of the instance's locks are held right now (hooks in /repo, tag verif).
